@@ -726,6 +726,9 @@ def directed_scripts():
           "delcal 1", "solve 0 1", "addcal 0 c6", "find c6", "getcal 1", "solve 0 1", "addcal 0 c42", "find c42",
           "pset 2 7", "pset -1 9", "pget 2", "pget 4", "pget -1", "solve 0 1", "addcal 0 c2", "pget 2", "free"]
     out["growth"] = g
+    out["empty_again"] = pre + ["end", "solve 0 1", "addcal 0 c1", "end", "delcal 0", "end", "getcal 0", "find c1", "delcal 0",
+                                "solve 0 1", "addcal 0 c2", "end", "solve 0 1", "addcal 0 c3", "delcal 0", "end", "delcal 1",
+                                "end", "free"]
     p = []
     for k in range(15):
         p.append("mks %d 1" % (k + 3))
@@ -802,6 +805,8 @@ def run(ctx):
         ctx.violation(sig, what, replay)
         return small
 
+    # every input class is generated (negative handles in add_*, correlated parameters sharing the frequency
+    # vector of a vector parameter behind an unknown one: the repairs D43 / D44 are in the library)
     feats = {"d43": True, "d44": True}
     probe_bad = []
     for name, (script, wrap) in sorted(PROBES.items()):
@@ -811,10 +816,6 @@ def run(ctx):
         if r is not None:
             probe_bad.append(name)
             report("probe " + name, script, r, wrap=wrap)
-            if name == "D43":
-                feats["d43"] = False
-            if name == "D44":
-                feats["d44"] = False
     ctx.obligation("tie:defect-probes (D8 D11 D37 D41 D42 D43 D44)", not probe_bad, "failing: " + ",".join(probe_bad))
     dir_bad = []
     for name, script in sorted(directed_scripts().items()):
@@ -826,16 +827,11 @@ def run(ctx):
             report("directed " + name, script, r)
     ctx.obligation("tie:directed scenarios (slot growth 1/8/16, delete-then-add, existing name, handle reuse, "
                    "delete while held)", not dir_bad, "failing: " + ",".join(dir_bad))
-    ctx.extra["generator_features"] = feats
 
     # corpus
     corpus_bad = 0
     for p in sorted(glob.glob(os.path.join(CORPUS, "*.txt"))):
         script = [l for l in open(p).read().split("\n") if l.strip() and not l.startswith("#")]
-        uses_d43 = any(re.match(r"mkc \d+ ([2-9]|\d\d)", l) for l in script)
-        uses_d44 = any(re.match(r"addstd \d+ \d+ .*-\d", " ".join(l.split()[:5])) for l in script)
-        if (uses_d43 and not feats["d43"]) or (uses_d44 and not feats["d44"]):
-            continue
         r = R.check(script)
         ctx.traces_validated += 1
         ctx.count(("corpus", os.path.basename(p)))
